@@ -51,13 +51,16 @@ theorem pubRemoveConn_eq (w : World) (p slot : Nat) :
       dsimp only
       cases getC w p s <;> rfl
 
+/-- the connection created by the publisher -/
+def newConnP (p : Nat) (e : SubEntry) (P : Pub) (gh : List Nat) : Conn :=
+  { pid := p, sid := e.sid, cap := e.buffer, used := List.replicate P.n false, sAtt := true,
+    gFirst := P.seq, gHist := gh }
+
 /-- the attach part of `pubCreateConn` -/
 def pubAttach (w : World) (p slot : Nat) (e : SubEntry) (P : Pub) (gh : List Nat) : World :=
   setP (match getC w p e.sid with
       | some c => setC w { c with sAtt := true, gFirst := P.seq, gHist := gh }
-      | none => pushC w { pid := p, sid := e.sid, cap := e.buffer,
-                          used := List.replicate P.n false, sAtt := true,
-                          gFirst := P.seq, gHist := gh }) p
+      | none => pushC w (newConnP p e P gh)) p
     { P with conns := P.conns.set slot (some e.sid) }
 
 def histCount (w : World) (p : Nat) (e : SubEntry) : Nat :=
@@ -71,7 +74,7 @@ theorem pubCreateConn_eq (w : World) (p slot : Nat) (e : SubEntry) :
         deliverHistory (pubAttach w p slot e P
             ((P.hist.drop (P.hist.length - histCount w p e)).map fun ch => P.chunkSeq.getD ch 0))
           p e.sid (P.hist.drop (P.hist.length - histCount w p e)) := by
-  unfold pubCreateConn pubAttach histCount pushC
+  unfold pubCreateConn pubAttach histCount pushC newConnP
   cases getP w p <;> rfl
 
 /-! subscriber side -/
@@ -115,13 +118,16 @@ theorem subPrepareRemoval_eq (w : World) (s slot : Nat) :
   unfold subPrepareRemoval prepRetry prepEvict
   rfl
 
+/-- the connection created by the subscriber -/
+def newConnS (w : World) (s p : Nat) (S : Sub) : Conn :=
+  { pid := p, sid := s, cap := S.buffer,
+    used := List.replicate (match getP w p with | some P => P.n | none => 0) false, rAtt := true }
+
 /-- the `create_receiver` part of `subCreateConn` -/
 def subAttach (w : World) (s p : Nat) (S : Sub) : World :=
   match getC w p s with
   | some c => setC w { c with rAtt := true }
-  | none => pushC w { pid := p, sid := s, cap := S.buffer,
-                      used := List.replicate (match getP w p with | some P => P.n | none => 0) false,
-                      rAtt := true }
+  | none => pushC w (newConnS w s p S)
 
 theorem subCreateConn_eq (w : World) (s slot p : Nat) :
     subCreateConn w s slot p =
@@ -131,7 +137,7 @@ theorem subCreateConn_eq (w : World) (s slot p : Nat) :
         match smInsert S.storage p with
         | (m, some key) => setS (subAttach w s p S) s { S with storage := m, conns := S.conns.set slot (some key) }
         | (_, none) => { subAttach w s p S with panicked := true } := by
-  unfold subCreateConn subAttach pushC
+  unfold subCreateConn subAttach pushC newConnS
   rfl
 
 /-- the tag computed in `subUpdateSlots` -/
